@@ -184,6 +184,21 @@ impl UnifyProp {
             };
             h.push((a, b));
         }
+        // C09 is about histories that contain `$_`: put one in by construction instead of discarding
+        if self.aspect == UAspect::Anon && !h.iter().any(|(a, b)| a.has_anon() || b.has_anon()) {
+            fn inject(t: &Term, s: &mut dyn Src) -> Term {
+                match t {
+                    Term::Cmp(f, a) if !a.is_empty() && chance(s, 3, 4) => { let i = s.draw(a.len() as u32) as usize; let mut a2 = a.clone(); a2[i] = inject(&a[i], s); Term::Cmp(f.clone(), a2) }
+                    Term::List(es, tl) if !es.is_empty() && chance(s, 3, 4) => {
+                        if chance(s, 1, 3) { Term::List(es.clone(), Some(Box::new(Term::Anon))) }
+                        else { let i = s.draw(es.len() as u32) as usize; let mut e2 = es.clone(); e2[i] = inject(&es[i], s); Term::List(e2, tl.clone()) }
+                    }
+                    _ => Term::Anon,
+                }
+            }
+            let i = s.draw(h.len() as u32) as usize;
+            if chance(s, 1, 2) { h[i].0 = inject(&h[i].0.clone(), s); } else { h[i].1 = inject(&h[i].1.clone(), s); }
+        }
         h
     }
 
@@ -321,7 +336,7 @@ const PRIORS: &[(&str, &str)] = &[
 impl Property for UnifyProp {
     fn id(&self) -> &'static str { self.id }
     fn max_len(&self) -> usize { 160 }
-    fn budget(&self) -> (u64, u64) { match self.aspect { UAspect::Symmetry => (8_000, 200_000), _ => (20_000, 500_000) } }
+    fn budget(&self) -> (u64, u64) { match self.aspect { UAspect::Symmetry => (30_000, 200_000), _ => (80_000, 500_000) } }
 
     fn check(&self, src: &mut dyn Src, rep: &mut Report) -> CaseResult {
         let h = self.gen_history(src);
